@@ -290,6 +290,7 @@ def _run(ctx, world, mode, rule, restrict=None):
             continue
         n += 1
         bad, und, seen = [], [], []
+        ctx.extra["A4_kind_assignments_evaluated"] = ctx.extra.get("A4_kind_assignments_evaluated", 0) + 2 ** len(nums)
         for combo in itertools.product("RC", repeat=len(nums)):
             assign = dict(zip(nums, combo))
             ak = ans_kind(world, e.prim, assign)
